@@ -375,8 +375,8 @@ static int tg_reserved_class(const char *c)
 
 /* longest names the generator asks for: VSNAMELENMAX = 64 for vdata names / classes and the names of vgroup and vdata attributes,
    H4_MAX_NC_NAME = 256 for data set and dimension names (hrepack's buffers were one byte short for exactly those values: fixed by
-   88cb01e and 0150cb3).  Image names: the library accepts any length up to 65535 but GRgetiminfo copies into char[H4_MAX_GR_NAME]
-   of every tool (finding gr-name-unbounded, proposed fix repro/tools/fix-c-grcreate-name-limit.diff): 255 until that is settled */
+   88cb01e and 0150cb3).  Image names: GRcreate accepts up to H4_MAX_GR_NAME - 1 = 255 characters since 5f16e67 (before: 65535, and
+   GRgetiminfo overflowed the char[H4_MAX_GR_NAME] of every tool) */
 #ifndef TG_VSNAME_MAX
 #define TG_VSNAME_MAX 64
 #endif
